@@ -26,47 +26,35 @@ theorem save_order_independent (fs : FS) (dir : Path) (t : Tree) (h : PathSafe t
     runTasks fs ts = runTasks fs (tasksTree dir t) :=
   (runWrites_perm fs _ ts (tasks_pairwise dir t h) hp).symm
 
-/-- after the tasks ran (in any order) on a directory that held nothing below `dir`, the directory
-    holds exactly the cells the tasks wrote -/
+/-- after the tasks ran in any order — on **any** prior content of the file system — every targeted
+    cell holds what its task wrote -/
 theorem save_exact (fs : FS) (dir : Path) (t : Tree) (h : PathSafe t)
-    (hfresh : ∀ rest, rest ≠ [] → fs (dir ++ rest) = none)
     (ts : List (Path × File)) (hp : (tasksTree dir t).Perm ts) :
     Exactly (runTasks fs ts) dir (tasksTree dir t) := by
   rw [save_order_independent fs dir t h ts hp]
   have hpw := tasks_pairwise dir t h
   have hnd := tasksTree_nodup dir t h
-  constructor
-  · intro x hx
-    show runWrites fs _ x.1 = _
-    rw [runWrites_lookup _ fs hpw x.1]
-    cases hf : (tasksTree dir t).find? (fun w => decide (w.1 = x.1)) with
-    | none =>
-      have := List.find?_eq_none.1 hf x hx
-      simp at this
-    | some w =>
-      have hw := List.mem_of_find?_eq_some hf
-      have hw1 : w.1 = x.1 := by simpa using List.find?_some hf
-      have : w = x := inj_of_nodup_map _ hnd w hw x hx hw1
-      simp [this]
-  · intro rest hr hno
-    show runWrites fs _ (dir ++ rest) = _
-    rw [runWrites_lookup _ fs hpw (dir ++ rest)]
-    cases hf : (tasksTree dir t).find? (fun w => decide (w.1 = dir ++ rest)) with
-    | none => exact hfresh rest hr
-    | some w =>
-      have hw := List.mem_of_find?_eq_some hf
-      have hw1 : w.1 = dir ++ rest := by simpa using List.find?_some hf
-      exact absurd hw1 (hno w hw)
+  intro x hx
+  show runWrites fs _ x.1 = _
+  rw [runWrites_lookup _ fs hpw x.1]
+  cases hf : (tasksTree dir t).find? (fun w => decide (w.1 = x.1)) with
+  | none =>
+    have := List.find?_eq_none.1 hf x hx
+    simp at this
+  | some w =>
+    have hw := List.mem_of_find?_eq_some hf
+    have hw1 : w.1 = x.1 := by simpa using List.find?_some hf
+    have : w = x := inj_of_nodup_map _ hnd w hw x hx hw1
+    simp [this]
 
 /-- **load ∘ save = id**: saving any tensordict with path-safe keys (any nesting depth, NonTensorData,
-    empty nodes, leaves without elements) into a fresh directory with the writer tasks completing in
-    **any** order, then loading, gives back the same keys, nesting, container kinds, batch sizes,
-    devices, dtypes, shapes, bytes and non-tensor payloads. -/
+    empty nodes, leaves without elements) into **any** directory — fresh or holding the files of an
+    earlier save — with the writer tasks completing in **any** order, then loading, gives back the same
+    keys, nesting, container kinds, batch sizes, devices, dtypes, shapes, bytes and non-tensor payloads. -/
 theorem load_save (fs : FS) (dir : Path) (t : Tree) (hc : isColl t = true) (hs : PathSafe t) (hw : WF t)
-    (hfresh : ∀ rest, rest ≠ [] → fs (dir ++ rest) = none)
     (ts : List (Path × File)) (hp : (tasksTree dir t).Perm ts) :
     load (depth t) (runTasks fs ts) dir = some t :=
-  load_ok (depth t) t dir _ hc hs hw (Nat.le_refl _) (save_exact fs dir t hs hfresh ts hp)
+  load_ok (depth t) t dir _ hc hs hw (Nat.le_refl _) (save_exact fs dir t hs ts hp)
 
 /-- a leaf without elements gets no file (`torch.from_file(size=0)` creates none): the saved directory
     of `TensorDict({"a": zeros(3, 0)}, [3])` holds only `meta.json`. On the pinned tree the loader
@@ -91,14 +79,14 @@ theorem write_through_load (fs : FS) (dir : Path) (b : List Nat) (d key dt : Str
     (hne : numel s ≠ 0) (hk : key ++ ".memmap" ≠ "meta.json")
     (he : Exactly fs dir (tasksTree dir (.node b d [(key, .leaf dt s old)]))) :
     load 1 (writeLeaf fs dir key new) dir = some (.node b d [(key, .leaf dt s new)]) := by
-  have hm := he.1 (dir ++ ["meta.json"], .json (nodeMeta b d [(key, .leaf dt s old)])) (by simp [tasksTree])
+  have hm := he (dir ++ ["meta.json"], .json (nodeMeta b d [(key, .leaf dt s old)])) (by simp [tasksTree])
   have hne' : dir ++ ["meta.json"] ≠ dir ++ [key ++ ".memmap"] := by
     intro h
     have := List.append_cancel_left h
     simp only [List.cons.injEq, and_true] at this
     exact hk this.symm
   simp only at hm
-  simp [load, loadEntries, writeLeaf, Slots.write, hne', hm, nodeMeta, metaEntry]
+  simp [load, loadEntries, writeLeaf, Slots.write, hne', hm, nodeMeta, metaEntry, hne]
 
 /-- `memmap_like` creates the same files as `memmap` (same paths) and a structure with the same
     keys, nesting, kinds, batch sizes, dtypes, shapes and payloads, with zero content -/
